@@ -68,6 +68,9 @@ Mk(i, sk, pr) ==
      ELSE CASE pr = "plain"   -> base
             [] pr = "restat"  -> [base EXCEPT !.restat = TRUE]
             [] pr = "gen"     -> [base EXCEPT !.gen = TRUE]
+            \* the generator flag set on the build statement, or set on the rule and cleared on the statement
+            [] pr = "genb"    -> [genlvl |-> "build"] @@ [base EXCEPT !.gen = TRUE]
+            [] pr = "genc"    -> [genlvl |-> "cleared"] @@ base
             [] pr = "two"     -> [base EXCEPT !.outs = <<O(i), P(i)>>]
             [] pr = "iout"    -> [base EXCEPT !.iouts = <<P(i)>>]
             [] pr = "rsp"     -> [base EXCEPT !.rsp = TRUE]
@@ -487,7 +490,7 @@ DropStmt(gr, k) == [i \in 1..(Len(gr.stmts) - 1) |-> LET s == gr.stmts[IF i < k 
 Droppable(gr) == {k \in DOMAIN gr.stmts : (\A i \in DOMAIN gr.stmts : gr.stmts[i].dd = "" /\ (i > k => ~gr.stmts[i].gen)) /\ \A o \in ToSet(gr.stmts[k].outs) \cup ToSet(gr.stmts[k].iouts) : o \notin Consumed(gr)}
 ToGcc(gr) == [i \in DOMAIN gr.stmts |-> IF gr.stmts[i].deps = "depfile" THEN [gr.stmts[i] EXCEPT !.deps = "gcc"] ELSE gr.stmts[i]]
 CleanGraphs(K) ==
-  UNION {GraphsS(sh, {"plain", "restat", "gen", "two", "iout", "rsp", "depfile", "gcc"}, K) : sh \in {"chain2", "chain3", "fanin", "fanout", "mixed", "alias", "group", "indep", "valid", "oonly"}}
+  UNION {GraphsS(sh, {"plain", "restat", "gen", "genb", "genc", "two", "iout", "rsp", "depfile", "gcc"}, K) : sh \in {"chain2", "chain3", "fanin", "fanout", "mixed", "alias", "group", "indep", "valid", "oonly"}}
   \cup DynGraphs
 FamClean(K, CH) ==
   UNION { {Scn(gr, <<Build(Roots(gr), 2, 1), c, Build(Roots(gr), 2, 1), Build(Roots(gr), 2, 1)>>) : c \in Pick(CH, CleanOps(gr))}
